@@ -112,7 +112,7 @@ def parseArgs (toks : List String) : List (String × String) :=
 def verdictHash (seed : UInt64) (e : E) : UInt64 :=
   (e.key ++ [0xff] ++ e.val).foldl (fun (h : UInt64) (b : UInt8) => (h ^^^ b.toUInt64) * 0x100000001b3) (seed ^^^ 0xcbf29ce484222325)
 
-/-- codes: 0-3 keep, 4 replace by value ++ "R", 5 replace by tombstone, 6 replace by weak tombstone, 7 drop -/
+/-- codes: 0-2 keep, 3 replace by value ++ 12 x "R" (crosses a separation threshold), 4 replace by value ++ "R", 5 replace by tombstone, 6 replace by weak tombstone, 7 drop -/
 def verdictCode (seed : UInt64) (e : E) : Nat := ((verdictHash seed e >>> 17) % 8).toNat
 
 /-- codes 6 (RemoveWeak) and 7 (Destroy) are only issued for the write-once keys `once`; elsewhere they fold to 0 / 1 (keep) -/
@@ -122,6 +122,7 @@ def treeVerdictCode (seed : UInt64) (once : List BK) (e : E) : Nat :=
 
 def seededTreeFilter (seed : UInt64) (once : List BK) (e : E) : Verdict :=
   match treeVerdictCode seed once e with
+  | 3 => .replace .value (e.val ++ List.replicate 12 0x52)
   | 4 => .replace .value (e.val ++ [0x52])
   | 5 => .replace .tomb []
   | 6 => .replace .weak []
@@ -130,6 +131,7 @@ def seededTreeFilter (seed : UInt64) (once : List BK) (e : E) : Verdict :=
 
 def seededFilter (seed : UInt64) (e : E) : Verdict :=
   match verdictCode seed e with
+  | 3 => .replace .value (e.val ++ List.replicate 12 0x52)
   | 4 => .replace .value (e.val ++ [0x52])
   | 5 => .replace .tomb []
   | 6 => .replace .weak []
